@@ -341,7 +341,7 @@ theorem lastAddr_no_panic (m : GMem) (h : WF m) : ∃ a, m.lastAddr = .ok a := b
 theorem checkRange_spec (m : GMem) (h : WF m) (base len : Nat) (hl : len < U) (hpos : 0 < len) :
     (m.checkRange base len = .ok true ↔ ∀ i, i < len → base + i < U ∧ mapped m (base + i)) ∧
     (∃ b, m.checkRange base len = .ok b) := by
-  rw [checkRange_eq]
+  rw [checkRange_eq m base len hpos]
   obtain ⟨res, hres, hnp, hiff, _⟩ := loop_triv h hl base len base 0 rfl hpos
   rw [hres]
   have hiff' : res = .ok len ↔ ∀ i, i < len → base + i < U ∧ mapped m (base + i) := by
@@ -370,20 +370,19 @@ theorem checkRange_eq_decide (m : GMem) (h : WF m) (base len : Nat) (hl : len < 
       intro hall; have := hiff.2 hall; cases this
     rw [decide_eq_false this]
 
-/-- for a zero length the code answers whether `base` itself is mapped (`try_access` with
-    `count = 0` still resolves `base`): NOT the vacuous-truth reading. -/
-theorem checkRange_zero (m : GMem) (h : WF m) (base : Nat) :
-    m.checkRange base 0 = .ok (decide (mapped m base)) := by
-  rw [checkRange_eq, GMem.tryAccessLoop]
-  rcases mapped_or_not m base with ⟨i, r, hi, hin⟩ | hn
-  · have hm : mapped m base := (mapped_iff_getElem? m base).2 ⟨i, r, hi, hin⟩
-    rw [findRegion_of_getElem? h hi hin]
-    simp only [hi, Region.toRegionAddr_eq hin]
-    have hcond : ¬ (r.len < base - r.start ∨ 0 < 0) := by omega
-    rw [if_neg hcond]
-    simp [trivCb, hm]
-  · rw [findRegion_of_unmapped h hn]
-    simp [hn]
+/-- an empty range has no unmapped byte: `check_range(base, 0)` is `true` for every `base`
+    (full-strength reading of the statement).  This holds since the `fix:` commit
+    "zero-length guest memory accesses succeed at any address": before it `try_access`
+    with `count = 0` still resolved `base` and the answer was `mapped m base` (defect D4). -/
+theorem checkRange_zero (m : GMem) (base : Nat) : m.checkRange base 0 = .ok true :=
+  checkRange_zero_eq m base
+
+/-- both lengths together: the range is valid exactly when every one of its bytes is mapped -/
+theorem checkRange_all (m : GMem) (h : WF m) (base len : Nat) (hl : len < U) :
+    m.checkRange base len = .ok true ↔ ∀ i, i < len → base + i < U ∧ mapped m (base + i) := by
+  rcases Nat.eq_zero_or_pos len with h0 | hpos
+  · subst h0; simp [checkRange_zero]
+  · exact (checkRange_spec m h base len hl hpos).1
 
 /-! ### 7. num_regions and iteration order -/
 
@@ -434,7 +433,7 @@ example : ex.checkRange 3 5 = .ok true := by
   have h2 : ex.findRegion 5 = .ok (some 1) := by decide
   have e0 : ex[0]? = some { start := 0, mem := mem 0x1000 5, id := 1 } := rfl
   have e1 : ex[1]? = some { start := 5, mem := mem 0x2000 3, id := 2 } := rfl
-  rw [GuestLemmas.checkRange_eq, GMem.tryAccessLoop, h1]
+  rw [GuestLemmas.checkRange_eq _ _ _ (by decide), GMem.tryAccessLoop, h1]
   simp [e0, trivCb, Region.toRegionAddr, checkedSub, Region.checkAddress, Region.addressInRange,
     Region.len, mem, U, overflowingAdd]
   rw [GMem.tryAccessLoop, h2]
@@ -450,8 +449,8 @@ example : ex.checkRange 0xFFFF_FFFF_FFFF_FFF0 15 = .ok true :=
   (checkRange_eq_decide ex ex_WF _ 15 (by decide) (by decide)).trans (by decide)
 example : ex.checkRange 0xFFFF_FFFF_FFFF_FFF0 16 = .ok false :=
   (checkRange_eq_decide ex ex_WF _ 16 (by decide) (by decide)).trans (by decide)
-example : ex.checkRange 8 0 = .ok false := (checkRange_zero ex ex_WF 8).trans (by decide)
-example : ex.checkRange 7 0 = .ok true := (checkRange_zero ex ex_WF 7).trans (by decide)
+example : ex.checkRange 8 0 = .ok true := checkRange_zero ex 8
+example : ex.checkRange 7 0 = .ok true := checkRange_zero ex 7
 
 end C02
 end VmMem
@@ -482,6 +481,7 @@ end VmMem
 #print axioms VmMem.C02.checkRange_spec
 #print axioms VmMem.C02.checkRange_eq_decide
 #print axioms VmMem.C02.checkRange_zero
+#print axioms VmMem.C02.checkRange_all
 #print axioms VmMem.C02.numRegions_eq
 #print axioms VmMem.C02.iter_sorted
 #print axioms VmMem.C02.iter_sorted_idx
